@@ -34,7 +34,7 @@ CONSTANTS
 CHECK_DEADLOCK FALSE
 """
 INVS = "INVARIANTS TypeOK C19_NoPoison C19_Filters C19_Terminates\nPROPERTY C19_Ends"
-PRIORITY = ["did-not-terminate", "too-many-upstream-queries", "alias-lookups-exceed-limit", "address-from-out-of-bailiwick-record-contacted",
+PRIORITY = ["did-not-terminate", "too-many-upstream-queries", "alias-lookups-exceed-limit", "alias-chase-deeper-than-recursion-limit", "address-from-out-of-bailiwick-record-contacted",
             "unknown-address-contacted", "denied-address-contacted", "out-of-bailiwick-record-returned",
             "out-of-bailiwick-record-served-from-cache", "negative-answer-kept-on-out-of-bailiwick-soa",
             "denied-address-returned", "denied-address-served-from-cache"]
@@ -104,10 +104,10 @@ def run(res, tier, seed):
     params = "MC_All" if thorough else "MC_Gen"
     tla, _ = vlib.wrapper(wd, "G_rec", "Gen_Recursor, RecursorNets",
                           {"MC_All": "HostileParams(LModes, MModes, TModes) \\cup FilterParams(LModes, MModes, TModes) \\cup V6Params "
-                                     "\\cup TreeParams(TreeModes) \\cup SoaParams \\cup DsParams",
+                                     "\\cup TreeParams(TreeModes) \\cup SoaParams \\cup DsParams \\cup LimParams \\cup NsqParams",
                            "MC_Gen": 'HostileParams({"in", "sib", "sib-noglue", "out", "lame", "self"}, MModes, {"a", "cname-sib", "loop2", "loop3", "none"}) '
                                      '\\cup FilterParams({"in", "sib", "out", "lame"}, {"in", "sib-noglue"}, {"a", "cname-in", "cname-out"}) '
-                                     '\\cup V6Params \\cup TreeParams(TreeModes) \\cup SoaParams \\cup DsParams'}, [])
+                                     '\\cup V6Params \\cup TreeParams(TreeModes) \\cup SoaParams \\cup DsParams \\cup LimParams \\cup NsqParams'}, [])
     cfg = write_cfg(wd, "G_rec", spec="Spec", params=params, ns=24, rec=24, cn=64, rule="required", tail="INVARIANT Emit")
     cases, st = vlib.gen(tla, cfg, wd, workers=W, timeout=2400)
     res.states += st["distinct"]
